@@ -90,7 +90,8 @@ def _stats(res, need_distinct=2):
     """(valid cells) of an input used for whole-array statistics; raises Precondition if degenerate."""
     vals = res.valid()
     if any(v is UNST for v in vals):
-        return None
+        # whether the documented precondition (enough distinct values) holds cannot be decided
+        raise Precondition("statistics over cells whose value is undecidable")
     if len(set(vals)) < need_distinct:
         raise Precondition("fewer than %d distinct valid values" % need_distinct)
     return vals
@@ -215,7 +216,7 @@ def _mean_to_mid(inp, ignore_zeros, normals):
         for v in vals:
             d = _decide(v, Fraction(0), inp.exact)
             if d is None:
-                return _all_unst(inp)
+                raise Precondition("cannot decide which cells are zero")
             if d != 0:
                 pool.append(v)
         if len(set(pool)) < 2:
@@ -226,7 +227,7 @@ def _mean_to_mid(inp, ignore_zeros, normals):
         # the mean is computed in floating point by the implementation: a cell (nearly) equal to it may fall on
         # either side, unless the data are exact and the cell equals the mean exactly (then so does the float mean)
         if close(v, m) and not (inp.exact and v == m):
-            return _all_unst(inp)
+            raise Precondition("a cell is indistinguishable from the mean")
         (below if v <= m else above).append(v)
     if not below or not above:
         raise Precondition("degenerate split")
